@@ -17,7 +17,7 @@
 (* to a recorded execution of the real library.  dv is the set of enabled  *)
 (* named deviations (known findings); {} is the specification proper.      *)
 (***************************************************************************)
-EXTENDS MultiAgent, Rename
+EXTENDS MultiAgent, Rename, Combine
 
 CONSTANT Eps            \* the comparison tolerance, a rational
 
